@@ -84,12 +84,14 @@ Definition take (k : N) : M (list N) := fun rest =>
   then RErr (match rest with [] => EEof | _ => EUEof end) 0
   else ROk (firstn (N.to_nat k) rest) (skipn (N.to_nat k) rest) 0.
 
-(** [io.CopyN(&bytes.Buffer, r, n)] for n > 0: the buffer grows with the data actually read (metered 2x: growth
-    by doubling), a short input is io.EOF whatever was read *)
+(** [io.CopyN(&bytes.Buffer, r, n)] for n > 0: the buffer grows with the data actually read - bytes.Buffer.ReadFrom
+    asks for 512 free bytes before every Read and doubles, so a copy costs at most 1536 + 4 * (bytes read), String()
+    included; a short input is io.EOF whatever was read *)
+Definition copy_cost (k : N) : N := 1536 + 4 * k.
 Definition copyN (n : N) : M (list N) := fun rest =>
   if N.of_nat (length rest) <? n
-  then RErr EEof (2 * N.of_nat (length rest))
-  else ROk (firstn (N.to_nat n) rest) (skipn (N.to_nat n) rest) (2 * n).
+  then RErr EEof (copy_cost (N.of_nat (length rest)))
+  else ROk (firstn (N.to_nat n) rest) (skipn (N.to_nat n) rest) (copy_cost n).
 
 (** fixed-width integer in the file's byte order *)
 Definition rd_int (be : bool) (k : N) : M N :=
